@@ -147,7 +147,7 @@ func buildScenario(r recipe) *scenario {
 		m1 := plainBlock(main, 201, blockSpacing+7)
 		sc.dels = append(sc.dels, delivery{blk: m1})
 		s = scen{n + 2, n + 1, 1}
-	case "orphan":
+	case "orphan", "shuffle":
 		s = scen{n + 2, n, 1}
 	default:
 		return nil
@@ -169,6 +169,20 @@ func buildScenario(r recipe) *scenario {
 		return plainBlock(q, 301, blockSpacing)
 	}
 	switch r.ctx {
+	case "shuffle":
+		// base chain, candidate and a child of the candidate, all delivered in a permutation fixed by the recipe
+		// (blocks whose parents are missing wait in the orphan pool); an error anywhere is the candidate's verdict
+		all := []delivery{{blk: sc.cand, watch: true}, {blk: child(), watch: true}}
+		for _, d := range sc.dels {
+			all = append(all, delivery{blk: d.blk, watch: true})
+		}
+		x := uint64(caseNonce(r))*2654435761 + 12345
+		for i := len(all) - 1; i > 0; i-- {
+			x = x*6364136223846793005 + 1442695040888963407
+			j := int((x >> 33) % uint64(i+1))
+			all[i], all[j] = all[j], all[i]
+		}
+		sc.dels = all
 	case "hdr":
 		// headers first: the header is offered before the block
 		sc.dels = append(sc.dels, delivery{blk: sc.cand, watch: true, hdr: true}, delivery{blk: sc.cand, watch: true})
@@ -458,7 +472,7 @@ func Lines(seed uint64, thorough bool) []string {
 }
 
 func generate(R *core.Rand, thorough bool, emit func(class string, nontrivial bool, line string)) {
-	ctxs := []string{"tip", "side", "orphan", "fork", "side2", "tmpl", "orphan2", "orphan3", "hdr"}
+	ctxs := []string{"tip", "side", "orphan", "fork", "side2", "tmpl", "orphan2", "orphan3", "hdr", "shuffle"}
 	for vi, v := range variants {
 		for _, m := range mutators {
 			if !m.applies(v, v.baseLen()+1) {
